@@ -24,50 +24,47 @@ def clean(x):
     return re.sub(r"@L?\d+", "", x)
 
 
+def _split_amp(t):
+    """'&A[I]' -> (A, I) for a top-level address-of-element term, else None."""
+    if not (t.startswith("&") and t.endswith("]")):
+        return None
+    depth = 0
+    for i in range(len(t) - 1, -1, -1):
+        if t[i] == "]":
+            depth += 1
+        elif t[i] == "[":
+            depth -= 1
+            if depth == 0:
+                return t[1:i], t[i + 1:-1]
+    return None
+
+
 def terms(x):
-    """Additive terms of a pointer expression string: '&A[I]' = A + I, nested sums flattened."""
-    x = clean(x).strip()
-    if x.startswith("&") and x.endswith("]"):
-        depth = 0
-        for i in range(len(x) - 1, -1, -1):
-            if x[i] == "]":
-                depth += 1
-            elif x[i] == "[":
-                depth -= 1
-                if depth == 0:
-                    return terms(x[1:i]) + terms(x[i + 1:-1])
-    if x.startswith("(") and x.endswith(")"):
-        depth = 0
-        wraps = True
-        for i, ch in enumerate(x):
-            if ch in "([":
-                depth += 1
-            elif ch in ")]":
-                depth -= 1
-                if depth == 0 and i != len(x) - 1:
-                    wraps = False
-                    break
-        if wraps:
-            inner = x[1:-1]
-            parts, depth, cur = [], 0, ""
-            for i, ch in enumerate(inner):
-                if ch in "([":
-                    depth += 1
-                elif ch in ")]":
-                    depth -= 1
-                if ch == "+" and depth == 0:
-                    parts.append(cur)
-                    cur = ""
-                else:
-                    cur += ch
-            parts.append(cur)
-            if len(parts) > 1:
-                out = []
-                for q in parts:
-                    out += terms(q)
-                return out
-            return terms(inner) if inner.startswith("(") or inner.startswith("&") else [x]
-    return [] if x == "#0" else [x]
+    """Additive terms of a pointer expression string as a list ('#N' for the constant, '-t' for subtracted terms):
+    '&A[I]' = A + I, nested sums and differences flattened, constants folded."""
+    acc = {}
+    const = [0]
+
+    def add(expr, sign):
+        t, c = linsum(expr, tags=True)
+        const[0] += sign * c
+        for k, v in t.items():
+            sp = _split_amp(k)
+            if sp:
+                add(sp[0], sign * v)
+                add(sp[1], sign * v)
+            else:
+                acc[k] = acc.get(k, 0) + sign * v
+    add(clean(x).strip(), 1)
+    out = []
+    for k, v in sorted(acc.items()):
+        if v:
+            out += [k] * v if v > 0 else ["-" + k] * (-v)
+    if const[0] > 0:
+        out.append("#%d" % const[0])
+    elif const[0] < 0:
+        out.append("-#%d" % (-const[0]))
+    return out
 
 
 def norm(ts):
